@@ -54,18 +54,36 @@ pub struct Scn {
     pub program: String,
     pub cfg: Cfg,
     pub cycles: u32,
-    pub interrupts: Vec<u32>,
-    pub resets: Vec<u32>,
+    pub interrupts: Vec<u64>,
+    pub resets: Vec<u64>,
     /// stated expectations: state (0 running, 1 stopped, 2 error), FE, FF
     pub expect: Option<(Option<u8>, Option<u8>, Option<u8>)>,
     pub layer: Layer,
+    /// voltages given as literal text (0 temp, 1 ai1, 2 ai2): the command line gets the text, the
+    /// stepped machine what Rust's f32 parser makes of it (`nan`, `inf`, `1e40`, `-0`, ...)
+    #[serde(default)]
+    pub volt_text: Vec<(u8, String)>,
 }
 
 fn v(oracle: &str, d: String) -> Violation {
     Violation::new("C12", oracle, d)
 }
 
-fn mconfig(c: &Cfg) -> MachineConfig {
+fn mconfig(scn: &Scn) -> MachineConfig {
+    let mut c = scn.cfg.clone();
+    for (i, (w, t)) in scn.volt_text.iter().enumerate() {
+        if scn.volt_text[..i].iter().any(|(x, _)| x == w) {
+            continue; // the first spelling per input counts (as on the command line)
+        }
+        if let Ok(f) = t.parse::<f32>() {
+            match w {
+                0 => c.temp = f,
+                1 => c.ai1 = f,
+                _ => c.ai2 = f,
+            }
+        }
+    }
+    let c = &c;
     MachineConfig {
         digital_input1: c.di1,
         temp: c.temp,
@@ -102,7 +120,7 @@ fn st_of(i: u8) -> State {
 pub fn r_run(scn: &Scn) -> Option<(Machine, usize)> {
     let parsed = AsmParser::parse(&scn.program).ok()?;
     let bytecode = Translator::compile(&parsed);
-    let mut m = Machine::new_with_program(mconfig(&scn.cfg), bytecode);
+    let mut m = Machine::new_with_program(mconfig(scn), bytecode);
     let mut i = 0usize;
     while i < scn.cycles as usize {
         if scn.interrupts.iter().any(|c| *c as usize == i) {
@@ -136,7 +154,7 @@ fn in_process(scn: &Scn, ctx: &mut Ctx) -> Result<(), Violation> {
     let rc = RunnerConfigBuilder::default()
         .with_program(&scn.program)
         .with_max_cycles(scn.cycles as usize)
-        .with_machine_config(mconfig(&scn.cfg))
+        .with_machine_config(mconfig(scn))
         .with_interrupts(scn.interrupts.iter().map(|c| *c as usize).collect::<Vec<usize>>())
         .with_resets(scn.resets.iter().map(|c| *c as usize).collect::<Vec<usize>>())
         .build()
@@ -180,11 +198,17 @@ fn in_process(scn: &Scn, ctx: &mut Ctx) -> Result<(), Violation> {
     if collide {
         ctx.cov.probe("interrupt-and-reset-same-cycle");
     }
-    if scn.interrupts.iter().chain(scn.resets.iter()).any(|c| *c >= scn.cycles) {
+    if scn.interrupts.iter().chain(scn.resets.iter()).any(|c| *c >= scn.cycles as u64) {
         ctx.cov.probe("schedule-entry-beyond-the-end");
     }
     if scn.interrupts.contains(&0) || scn.resets.contains(&0) {
         ctx.cov.probe("schedule-entry-at-cycle-0");
+    }
+    if scn.interrupts.iter().chain(scn.resets.iter()).any(|c| *c >> 32 != 0) {
+        ctx.cov.probe("schedule-entry-beyond-2^32");
+    }
+    if scn.volt_text.iter().any(|(_, t)| t.parse::<f32>().map(|f| !f.is_finite()).unwrap_or(false)) {
+        ctx.cov.probe("non-finite-voltage-configured");
     }
     ctx.cov.distinct(mix(
         mix(budget_class(scn, wn), mix(scn.interrupts.len().min(3) as u64, scn.resets.len().min(3) as u64)),
@@ -336,14 +360,13 @@ fn process(scn: &Scn, radix: &[u8], fault: &Option<FileFault>, bad: &Option<(Str
             flags.push((k.to_string(), fmt_byte(*val, r(i))));
         }
     }
-    if c.temp != 0.0 {
-        flags.push(("--temp".into(), format!("{}", c.temp)));
-    }
-    if c.ai1 != 0.0 {
-        flags.push(("--ai1".into(), format!("{}", c.ai1)));
-    }
-    if c.ai2 != 0.0 {
-        flags.push(("--ai2".into(), format!("{}", c.ai2)));
+    let vt = |w: u8| scn.volt_text.iter().find(|(x, _)| *x == w).map(|(_, t)| t.clone());
+    for (w, k, val) in [(0u8, "--temp", c.temp), (1, "--ai1", c.ai1), (2, "--ai2", c.ai2)] {
+        if let Some(t) = vt(w) {
+            flags.push((k.into(), t));
+        } else if val != 0.0 {
+            flags.push((k.into(), format!("{}", val)));
+        }
     }
     if let Some((k, val)) = bad {
         flags.push((k.clone(), val.clone()));
@@ -354,7 +377,8 @@ fn process(scn: &Scn, radix: &[u8], fault: &Option<FileFault>, bad: &Option<(Str
     let eq_form = (r(7) / 2) % 2 == 1;
     let push_flags = |args: &mut Vec<String>| {
         for (k, val) in &flags {
-            if eq_form {
+            if eq_form || val.starts_with('-') {
+                // (a value with a leading minus is only unambiguous in the `=` form)
                 args.push(format!("{}={}", k, val));
             } else {
                 args.push(k.clone());
@@ -402,7 +426,8 @@ fn process(scn: &Scn, radix: &[u8], fault: &Option<FileFault>, bad: &Option<(Str
     }
     let (code, out) = spawn(&sb, &args)?;
     ctx.cov.fault("CLI-SPAWN");
-    if bad.is_some() {
+    let unparsable = scn.volt_text.iter().any(|(_, t)| t.parse::<f32>().is_err());
+    if bad.is_some() || unparsable {
         ctx.cov.fault("ARG-REJECTED");
         // the property speaks about accepted configurations; a rejected one must not produce a run report
         if code == 0 || out.contains("Cycles:") {
@@ -482,7 +507,11 @@ fn verify_cmd(scn: &Scn, fault: &Option<FileFault>, ctx: &mut Ctx) -> Result<(),
     Ok(())
 }
 
-fn sched(rng: &mut Rng, cycles: u32) -> Vec<u32> {
+fn sched(rng: &mut Rng, cycles: u32) -> Vec<u64> {
+    sched32(rng, cycles).into_iter().map(|c| if rng.chance(1, 12) { c as u64 + ((1 + rng.below(3)) << 32) } else if rng.chance(1, 40) { u64::MAX - rng.below(3) } else { c as u64 }).collect()
+}
+
+fn sched32(rng: &mut Rng, cycles: u32) -> Vec<u32> {
     let n = match rng.below(6) {
         0..=2 => 0,
         3 | 4 => 1 + rng.below(3),
@@ -549,7 +578,16 @@ impl Check for C12 {
         let broken = rng.chance(1, 12);
         let program = if broken { textgen::broken_program(rng) } else { textgen::program(rng).0 };
         let cfg = gen_cfg(rng);
-        let mut scn = Scn { program, cfg, cycles: 0, interrupts: vec![], resets: vec![], expect: None, layer: Layer::InProcess };
+        let mut scn = Scn { program, cfg, cycles: 0, interrupts: vec![], resets: vec![], expect: None, layer: Layer::InProcess, volt_text: vec![] };
+        if rng.chance(1, 6) {
+            for _ in 0..1 + rng.below(2) {
+                let t = *rng.pick(&["nan", "NaN", "inf", "-inf", "infinity", "1e40", "-1e40", "-0", "5.0000001", "4.9999", "1e-50", "+2.5", ".5", "5.", "2.55", "-nan"]);
+                let w = rng.below(3) as u8;
+                if !scn.volt_text.iter().any(|(x, _)| *x == w) {
+                    scn.volt_text.push((w, t.to_string()));
+                }
+            }
+        }
         // budget: 0, 1, small, around the halt time +-2, large
         scn.cycles = match rng.below(8) {
             0 => 0,
@@ -663,7 +701,7 @@ impl Check for C12 {
         out
     }
     fn rule(&self) -> String {
-        "Generated mrasm source programs (addition, board/input mirror, interrupt/board status mirror (0xF9, 0xF3), counters, key-interrupt programs, error halts, random straight-line code, broken sources) x machine configurations x cycle budgets {0, 1, small, halt time +-2, large} x interrupt / reset schedules with duplicates, cycle 0, entries at and beyond the end, both kinds at the same cycle. In-process: RunnerConfig::run vs the stated loop (full Machine equality, cycle count) and verify() for all 8 expectation subsets x matching / one mismatching value. Process: the real binary with every byte flag in decimal/0x/0b (also zero-padded and lower-case hex spellings), `--flag value` or `--flag=value`, flags before or after the positionals, repeated --interrupt/--reset, verify sub-command, malformed values, and file faults (missing, directory, non-UTF-8, syntax error, undefined label); stdout fields and exit status compared. distinct = distinct (budget class, #interrupts, #resets, collision?, final state, layer, expectation outcome) tuples.".into()
+        "Generated mrasm source programs (addition, board/input mirror, interrupt/board status mirror (0xF9, 0xF3), counters, key-interrupt programs, error halts, random straight-line code, broken sources) x machine configurations x cycle budgets {0, 1, small, halt time +-2, large} x interrupt / reset schedules with duplicates, cycle 0, entries at and beyond the end, entries >= 2^32 (also congruent to cycles inside the run modulo 2^32), both kinds at the same cycle; voltages also as literal spellings (nan, inf, 1e40, -0, ...). In-process: RunnerConfig::run vs the stated loop (full Machine equality, cycle count) and verify() for all 8 expectation subsets x matching / one mismatching value. Process: the real binary with every byte flag in decimal/0x/0b (also zero-padded and lower-case hex spellings), `--flag value` or `--flag=value`, flags before or after the positionals, repeated --interrupt/--reset, verify sub-command, malformed values, and file faults (missing, directory, non-UTF-8, syntax error, undefined label); stdout fields and exit status compared. distinct = distinct (budget class, #interrupts, #resets, collision?, final state, layer, expectation outcome) tuples.".into()
     }
     fn assumptions(&self) -> Vec<String> {
         vec![
@@ -684,7 +722,7 @@ impl Check for C12 {
         json!({"program": s.program, "cfg": s.cfg, "cycles": s.cycles, "interrupts": s.interrupts, "resets": s.resets, "expect": s.expect, "layer": s.layer})
     }
     fn must_fire(&self, _tier: Tier) -> Vec<String> {
-        ["K-INT-SCHEDULED", "RST-CPU-SCHEDULED", "duplicate-schedule-entry", "interrupt-and-reset-same-cycle", "schedule-entry-beyond-the-end", "schedule-entry-at-cycle-0", "parse-error-reported", "CLI-SPAWN", "CLI-VERIFY-SPAWN", "ARG-REJECTED", "FILE-MISSING", "FILE-IS-DIRECTORY", "FILE-NON-UTF8", "FILE-PARSE-ERROR", "cli-verification-failed"]
+        ["schedule-entry-beyond-2^32", "non-finite-voltage-configured", "K-INT-SCHEDULED", "RST-CPU-SCHEDULED", "duplicate-schedule-entry", "interrupt-and-reset-same-cycle", "schedule-entry-beyond-the-end", "schedule-entry-at-cycle-0", "parse-error-reported", "CLI-SPAWN", "CLI-VERIFY-SPAWN", "ARG-REJECTED", "FILE-MISSING", "FILE-IS-DIRECTORY", "FILE-NON-UTF8", "FILE-PARSE-ERROR", "cli-verification-failed"]
             .iter()
             .map(|s| s.to_string())
             .collect()
